@@ -225,6 +225,13 @@ func (c *Chain) ProposeVDF(nd *node.Node, txs []node.MixTx, opName string, vdf *
 	if e := lib.Unmarshal(block, blk); e != nil {
 		panic(node.RealCodeError{Where: "unmarshal of the block ProduceProposal returned", Err: e.Error()})
 	}
+	// whatever the mempool held and whatever was executed and discarded before: a transaction whose
+	// signature does not verify is never part of a block an honest node builds
+	if bad := node.InvalidSignatureTxs(blk.Transactions); len(bad) != 0 {
+		c.O.Fail(Property+":invalid-signature-tx-included",
+			fmt.Sprintf("height %d: the block built by %s contains %d transaction(s) whose signature does not verify (positions %v of %d)", blk.BlockHeader.Height, name, len(bad), bad, len(blk.Transactions)),
+			map[string]any{"case": c.O.CurCase(), "block": hex.EncodeToString(block), "tx": hex.EncodeToString(blk.Transactions[bad[0]])})
+	}
 	vs := nd.Committee()
 	hb, _ := lib.Marshal(blk.BlockHeader)
 	p := &Proposal{ID: hex.EncodeToString(blk.BlockHeader.Hash)[:16], Block: block, Results: results, RC: rc, NTx: len(blk.Transactions),
